@@ -1,5 +1,6 @@
 import Tx3Proofs.C06
 import Tx3Proofs.C06Reduce
+import Tx3Proofs.C06Lower
 #print axioms Tx3.Expr.C06_reported_complete
 #print axioms Tx3.Expr.C06_closes
 #print axioms Tx3.C06_tx_closes
@@ -9,3 +10,8 @@ import Tx3Proofs.C06Reduce
 #print axioms Tx3.reduce_closed
 #print axioms Tx3.C06_reduce_keeps_closed
 #print axioms Tx3.C06_closes_after_reduce
+#print axioms Tx3.Expr.fresh_sealed
+#print axioms Tx3.Expr.fresh_WF
+#print axioms Tx3.Lang.lower_fresh
+#print axioms Tx3.Lang.lowerTx_fresh
+#print axioms Tx3.Lang.lowerTx_sealed_WF
